@@ -19,6 +19,7 @@ import (
 	"github.com/wader/fq/pkg/bitio"
 	"github.com/wader/fq/pkg/decode"
 	"github.com/wader/fq/pkg/interp"
+	"github.com/wader/fq/pkg/scalar"
 )
 
 // Seed is one byte string that decodes as Format, together with its derivation
@@ -40,6 +41,11 @@ type Seed struct {
 	Data   []byte `json:"data,omitempty"`
 	Rank   int    `json:"rank"`
 	Values int    `json:"values"` // number of values in the intact decode tree
+	// Cover: a candidate for the coverage seeds of the structural section (whole files
+	// chosen greedily so that together they show every field name the format's decoder
+	// produced anywhere in the corpus); Names = the distinct value names of its tree
+	Cover bool     `json:"cover,omitempty"`
+	Names []string `json:"names,omitempty"`
 }
 
 func (s *Seed) ID() string { return s.Format + "#" + strconv.Itoa(s.Rank) }
@@ -87,9 +93,10 @@ type topK struct {
 	maxLen int64 // candidates longer than this are not seeds (0: no limit)
 	maxVal int   // candidates whose intact tree has more values are not seeds (0: no limit)
 	m      map[string][]*Seed
+	cov    map[string][]*Seed
 }
 
-func newTopK(k int) *topK { return &topK{k: k, m: map[string][]*Seed{}} }
+func newTopK(k int) *topK { return &topK{k: k, m: map[string][]*Seed{}, cov: map[string][]*Seed{}} }
 
 // wouldAccept is a cheap pre-test (before the bytes are copied).
 func (t *topK) wouldAccept(c *Seed) bool {
@@ -101,6 +108,18 @@ func (t *topK) wouldAccept(c *Seed) bool {
 }
 
 func (t *topK) add(c *Seed) bool {
+	if c.Cover {
+		if t.maxLen > 0 && c.Len > t.maxLen || t.maxVal > 0 && c.Values > t.maxVal {
+			return false
+		}
+		for _, o := range t.cov[c.Format] {
+			if o.Hash == c.Hash && o.Len == c.Len {
+				return false
+			}
+		}
+		t.cov[c.Format] = append(t.cov[c.Format], c)
+		return true
+	}
 	if t.maxLen > 0 && c.Len > t.maxLen || t.maxVal > 0 && c.Values > t.maxVal {
 		return false
 	}
@@ -125,6 +144,29 @@ func (t *topK) add(c *Seed) bool {
 	}
 	t.m[c.Format] = l
 	return true
+}
+
+const coverRank = 100
+
+// nameSet: the distinct names of the values of a tree (sorted, at most max).
+func nameSet(root *decode.Value, max int) []string {
+	m := map[string]bool{}
+	_ = root.WalkPreOrder(func(v *decode.Value, _ *decode.Value, _ int, _ int) error {
+		if v.Name != "" && len(m) < max {
+			m[v.Name] = true
+		}
+		// box / chunk / tag types distinguish what a generic "boxes[]" element exercises
+		if sc, ok := v.V.(scalar.Scalarable); ok && (v.Name == "type" || v.Name == "id" || v.Name == "tag") && len(m) < max {
+			m[v.Name+"="+fmt.Sprint(sc.ScalarActual())] = true
+		}
+		return nil
+	})
+	out := make([]string, 0, len(m))
+	for k := range m {
+		out = append(out, k)
+	}
+	sort.Strings(out)
+	return out
 }
 
 func valuePath(v *decode.Value) string {
@@ -187,6 +229,15 @@ func harvest(f *corpus.File, via string, root *decode.Value, hadErr bool, tk *to
 			c.Hash = hashBytes(f.Data)
 			if tk.add(c) {
 				out(c)
+			}
+		}
+		if len(f.Data) > 0 && c.Class == 0 && (tk.maxLen == 0 || c.Len <= tk.maxLen) {
+			cc := *c
+			cc.Cover = true
+			cc.Hash = hashBytes(f.Data)
+			cc.Names = nameSet(root, 600)
+			if tk.add(&cc) {
+				out(&cc)
 			}
 		}
 	}
@@ -349,6 +400,63 @@ func (w *worker) selectSeeds(files []corpus.File, k int, maxSeed int64, maxVal i
 	for i := range files {
 		byPath[files[i].Path] = &files[i]
 	}
+	// coverage seeds: greedy set cover of the value names per format, on top of what
+	// the top-k seeds already show; ties by (length, path); kept in the same map under
+	// ranks >= coverRank
+	for f, cands := range tk.cov {
+		sort.SliceStable(cands, func(a, b int) bool { return seedLess(cands[a], cands[b]) })
+		covered := map[string]bool{}
+		have := map[uint64]bool{}
+		for _, s := range tk.m[f] {
+			have[s.Hash] = true
+			for _, c := range cands {
+				if c.Hash == s.Hash {
+					for _, n := range c.Names {
+						covered[n] = true
+					}
+				}
+			}
+		}
+		n := 0
+		for n < w.coverMax {
+			best, gain := -1, 0
+			for i, c := range cands {
+				if have[c.Hash] {
+					continue
+				}
+				g := 0
+				for _, nm := range c.Names {
+					if !covered[nm] {
+						g++
+					}
+				}
+				if g > gain {
+					best, gain = i, g
+				}
+			}
+			if best < 0 {
+				break
+			}
+			c := cands[best]
+			have[c.Hash] = true
+			for _, nm := range c.Names {
+				covered[nm] = true
+			}
+			c.Names = nil
+			c.Rank = coverRank + n
+			if fl := byPath[c.Path]; fl != nil {
+				c.Data = fl.Data
+			}
+			w.cover = append(w.cover, c)
+			n++
+		}
+	}
+	sort.SliceStable(w.cover, func(a, b int) bool {
+		if w.cover[a].Format != w.cover[b].Format {
+			return w.cover[a].Format < w.cover[b].Format
+		}
+		return w.cover[a].Rank < w.cover[b].Rank
+	})
 	for _, l := range tk.m {
 		for i, s := range l {
 			s.Rank = i
@@ -449,6 +557,7 @@ var synthetic = []struct {
 // worker (self re-exec after a watchdog stop, restart by core after a death).
 type seedCache struct {
 	Seeds   map[string][]*Seed `json:"seeds"`
+	Cover   []*Seed            `json:"cover"`
 	NFiles  int64              `json:"nfiles"`
 	Skipped int                `json:"skipped"`
 }
@@ -488,4 +597,60 @@ func (w *worker) saveSeedCache(sc *seedCache) {
 	if os.WriteFile(p+".tmp", b, 0o644) == nil {
 		_ = os.Rename(p+".tmp", p)
 	}
+}
+
+// structRanges: the distinct byte ranges (start, length) of the values of the seed's
+// intact tree (own format, not forced) that lie in the seed's own buffer, are byte
+// aligned, non-empty and shorter than the seed; pre-order, smallest ranks first, at
+// most max. Computed per run from the live decoders (a decoder that fails on its own
+// seed yields the ranges of the partial tree).
+func structRanges(s *Seed, max int) [][2]int {
+	res := corpus.Decode(s.Data, s.Format, false, 20*time.Second)
+	if res.Value == nil {
+		return nil
+	}
+	root := res.Value
+	seen := map[[2]int]bool{}
+	var out [][2]int
+	take := func(v *decode.Value) {
+		if sc, ok := v.V.(scalar.Scalarable); ok && sc.ScalarFlags().IsSynthetic() {
+			return
+		}
+		rg := v.Range
+		if rg.Start%8 != 0 || rg.Len%8 != 0 || rg.Len == 0 || rg.Len/8 >= int64(len(s.Data)) {
+			return
+		}
+		k := [2]int{int(rg.Start / 8), int(rg.Len / 8)}
+		if !seen[k] {
+			seen[k] = true
+			out = append(out, k)
+		}
+	}
+	// breadth first over the compounds (whole boxes, chunks, frames, elements: the top
+	// level ones first), then the leaves in tree order; only values of the seed's own buffer
+	queue := []*decode.Value{root}
+	var leaves []*decode.Value
+	for len(queue) > 0 && len(out) < max*3/4 {
+		v := queue[0]
+		queue = queue[1:]
+		c, ok := v.V.(*decode.Compound)
+		if !ok {
+			leaves = append(leaves, v)
+			continue
+		}
+		if v != root {
+			if v.IsRoot {
+				continue // nested buffer
+			}
+			take(v)
+		}
+		queue = append(queue, c.Children...)
+	}
+	for _, v := range leaves {
+		if len(out) >= max {
+			break
+		}
+		take(v)
+	}
+	return out
 }
